@@ -3,7 +3,7 @@
 
 Builds harness/c18_replay in the complete matrix {opt-level 0, 3} x {overflow-checks +
 debug-assertions on, off} x {optional features off, on: serde of the three crates that have
-it and rand_jitter's log feature with a logger that formats every record}, replays the same enumerated corpus in each
+it, rand_jitter's std feature and its log feature with a logger that formats every record}, replays the same enumerated corpus in each
 and compares the per-item digests. exit 0 held / 1 violation / 2 machinery failure."""
 import json, os, subprocess, sys, time, shutil
 
